@@ -352,6 +352,14 @@ func injectCollision(r interface{ Intn(int) int }, p *proj.Project) {
 	// a second declaration of exactly the same function is not valid Go (go/doc silently keeps one of them): never generate it
 	declared := func(name, recv string) bool {
 		for _, fl := range p.Main.Files {
+			if recv == "" {
+				// a package-level function may not share its name with a type either
+				for _, td := range fl.Types {
+					if td.Name == name {
+						return true
+					}
+				}
+			}
 			for _, d := range fl.Funcs {
 				rc := ""
 				if d.Recv != nil {
